@@ -203,7 +203,7 @@ func apiVersionOf(kind string) string {
 		return "policy/v1"
 	case "CustomResourceDefinition":
 		return "apiextensions.k8s.io/v1"
-	case "MyKind", "OtherKind":
+	case "MyKind", "OtherKind", "ClusterWidget", "Cluster":
 		return "example.com/v1"
 	}
 	return "v1"
@@ -409,7 +409,9 @@ func (t *Tree) mkSimple(r *rand.Rand, layer int, kind, name, ns string) *GenRes 
 		o["spec"] = Obj{"accessModes": []interface{}{"ReadWriteOnce"}}
 	case "Role", "ClusterRole":
 		o["rules"] = []interface{}{Obj{"apiGroups": []interface{}{""}, "resources": []interface{}{"pods"}, "verbs": []interface{}{"get"}}}
-	case "MyKind", "OtherKind":
+	case "MyKind", "OtherKind", "ClusterWidget", "Cluster":
+		// (custom kinds the schema does not know — whatever their NAME suggests, they are "not certainly
+		// cluster-scoped": the namespace directive applies to them)
 		o["spec"] = Obj{"free": freeValue(r, t.Feat.Adversarial), "items": []interface{}{Obj{"name": "a", "v": float64(1)}, Obj{"name": "b", "v": float64(2)}}}
 	case "CustomResourceDefinition":
 		o["spec"] = Obj{"group": "example.com", "names": Obj{"kind": "MyKind", "plural": "mykinds"}, "scope": "Namespaced"}
@@ -726,7 +728,7 @@ func genTree(r *rand.Rand, f Feat) *Tree {
 				here = append(here, t.mkSimple(r, li, kind, name, ns))
 			case 6:
 				kind := pickS(r, []string{"MyKind", "OtherKind", "Role", "ClusterRole", "Namespace", "CustomResourceDefinition", "ServiceAccount", "Role",
-					"PriorityClass", "VolumeAttachment"})
+					"PriorityClass", "VolumeAttachment", "ClusterWidget", "Cluster"})
 				name := pickS(r, fam)
 				if kind == "Namespace" {
 					name = pickS(r, []string{"ns1", "ns2", "ns3"})
